@@ -56,10 +56,7 @@ fn main() {
     limit_address_space();
     let t0 = std::time::Instant::now();
     match ctx.prop.as_str() {
-        "C01" => match ctx.family.as_str() {
-            "step" => mcw::steps::c01_step(&mut ctx),
-            f => panic!("unknown family {}", f),
-        },
+        "C01" => mcw::c01::run(&mut ctx),
         "C02" => mcw::c02::run(&mut ctx),
         "C03" | "C11" => mcw::c03::run(&mut ctx),
         "C04" => mcw::steps::c04(&mut ctx),
